@@ -158,9 +158,10 @@ Record walk_wf (h : heap) : Prop := {
   ww_acyclic : forall d, ~ dreachp h d d
 }.
 
-(* every stored link target is a cleaned string, as [symlink] stores it *)
+(* the target of every link that has a NAME (a directory entry pointing to it) is a cleaned string, as [symlink]
+   stores it.  Unnamed link nodes are garbage - [delete_node] blanks their target - and are never met by a walk. *)
 Definition links_clean (h : heap) : Prop :=
-  forall i t m, get h i = Some (NSym t m) -> exists x, t = clean Linux x.
+  forall d n i t m, dedge h d n i -> get h i = Some (NSym t m) -> exists x, t = clean Linux x.
 
 Lemma alookup_in (V : Type) (k : str) (m : list (str * V)) (x : V) : alookup str_eqb k m = Some x -> In (k, x) m.
 Proof.
@@ -425,7 +426,7 @@ Section Sym.
       + left. cbn. repeat split; eauto; unfold get in *; congruence.
       + left. cbn. split; [|intros _ [=]]. right. split; [auto|reflexivity].
     - (* a symbolic link *)
-      destruct (Hlc n t m Hgn) as (x & Ht).
+      destruct (Hlc parent c n t m (alookup_in _ _ _ _ Hl) Hgn) as (x & Ht).
       pose proof (clean_shape_clean x) as Hsh. pose proof (clean_nonempty x) as Htn. rewrite <- Ht in Hsh, Htn.
       destruct (Nat.ltb slCountMax (S slcount)) eqn:Hbud.
       { (* the 41st link: the implementation refuses; so does the kernel if it was going to follow it *)
@@ -775,7 +776,7 @@ Module WalkSymNonVacuity.
   Qed.
   Example tree_links_clean : links_clean tree.
   Proof.
-    intros i t m. unfold get.
+    intros d0 n0 i t m _. unfold get.
     do 14 (destruct i as [|i];
            [cbn [nth_error tree]; intros E; try discriminate E; injection E as <- _;
             match goal with |- exists x, ?t = _ => exists t end; vm_compute; reflexivity|]).
